@@ -379,10 +379,25 @@ def rule_batch(ctx) -> None:
                   "the compute phase does not run on the read-only snapshot")
 
 
+def _flushers(ctx) -> Dict[str, Func]:
+    """module helpers of the driver that flush a stager: they loop over <stager>.drain_sorted() and write each record with
+    _append_unbuffered(<rec>.file_path, <rec>.payload), without leaving the loop early"""
+    out = {}
+    for f in ctx.prog.module(PAR).funcs.values():
+        for lp in [x for x in walk_no_defs(f.node) if isinstance(x, ast.For) and isinstance(x.iter, ast.Call) and call_tail(x.iter) == "drain_sorted" and isinstance(x.target, ast.Name)]:
+            v = lp.target.id
+            w = [y for st in lp.body for y in ast.walk(st) if isinstance(y, ast.Call) and call_tail(y) == "_append_unbuffered"]
+            early = any(isinstance(y, (ast.Break, ast.Return)) for st in lp.body for y in ast.walk(st))
+            if w and all(src(a).startswith(v + ".") for a in w[0].args) and not early and f.qual != BATCH:
+                out[f.name] = f
+    return out
+
+
 def rule_stage(ctx) -> None:
     fn = ctx.func(BATCH)
     cfg = ctx.cfg(fn)
     rd = ctx.rd(fn)
+    flushers = _flushers(ctx)
     stages = [(n, c) for n in sorted(cfg.nodes, key=lambda x: x.id) for c in node_calls(n) if call_tail(c) == "stage" and isinstance(c.func.value, ast.Name) and len(c.args) == 3]
     ctx.floor("C10.STAGE", "stager.stage call sites", len(stages), 4)
     primary = [(n, c) for n, c in stages if not any(part == "handler" for st, part in enclosing(ctx.prog, fn, c))]
@@ -402,8 +417,9 @@ def rule_stage(ctx) -> None:
         why = "no RuntimeError handler"
         if ok:
             hb = h[0]
-            drains = [x for x in ast.walk(hb) if isinstance(x, ast.Call) and call_tail(x) == "drain_sorted"]
-            writes = [x for x in ast.walk(hb) if isinstance(x, ast.Call) and call_tail(x) == "_append_unbuffered"]
+            viah = [x for x in ast.walk(hb) if isinstance(x, ast.Call) and isinstance(x.func, ast.Name) and x.func.id in flushers]
+            drains = [x for x in ast.walk(hb) if isinstance(x, ast.Call) and call_tail(x) == "drain_sorted"] or viah
+            writes = [x for x in ast.walk(hb) if isinstance(x, ast.Call) and call_tail(x) == "_append_unbuffered"] or viah
             rts = [x for x in ast.walk(hb) if isinstance(x, ast.Call) and call_tail(x) == "stage"]
             same = len(rts) == 1 and [src(a) for a in rts[0].args] == [src(a) for a in c.args]
             in_loop = any(isinstance(st, (ast.For, ast.While)) and any(y is rts[0] for y in ast.walk(st)) for st in ast.walk(hb) if rts) if rts else False
@@ -431,11 +447,14 @@ def rule_stage(ctx) -> None:
     commit_loops = [n for n in cfg.nodes if n.kind == "iter" and isinstance(n.ast.iter, ast.Call) and call_tail(n.ast.iter) == "_sort_turn_buffers"]
     finals = [n for n in cfg.nodes if n.kind == "iter" and isinstance(n.ast.iter, ast.Call) and call_tail(n.ast.iter) == "drain_sorted"
               and not any(part == "handler" for st, part in enclosing(ctx.prog, fn, n.ast))]
+    finals_h = [n for n in cfg.nodes if n.kind == "stmt" and any(isinstance(c.func, ast.Name) and c.func.id in flushers for c in node_calls(n))
+                and not any(part == "handler" for st, part in enclosing(ctx.prog, fn, n.ast))]
+    finals_all = finals + finals_h
     dis = [n for n in cfg.nodes if any(isinstance(c.func, ast.Call) and c.func.args and const_str(c.func.args[0]) == "disable_staging" for c in node_calls(n))]
     for cl in commit_loops:
         fb = [t for t, l in cl.succ if l == "F"]
-        p = cfg.path(fb, lambda x: x is cfg.exit, avoid=lambda x: x in finals, edge_ok=no_exc)
-        ctx.check(bool(finals) and p is None, "C10.STAGE", f"{fn.qual}/final-drain", fn.loc(cl.ast), "after the commit loop every normal path drains the stager (drain_sorted -> _append_unbuffered)",
+        p = cfg.path(fb, lambda x: x is cfg.exit, avoid=lambda x: x in finals_all, edge_ok=no_exc)
+        ctx.check(bool(finals_all) and p is None, "C10.STAGE", f"{fn.qual}/final-drain", fn.loc(cl.ast), "after the commit loop every normal path drains the stager (drain_sorted -> _append_unbuffered)",
                   "the staged records are not flushed after the commit loop on some normal path: captured log lines are lost", ctx.path_witness(fn, p))
         p2 = cfg.path(fb, lambda x: x is cfg.exit, avoid=lambda x: x in dis, edge_ok=no_exc)
         ctx.check(bool(dis) and p2 is None, "C10.STAGE", f"{fn.qual}/staging-disabled-on-exit", fn.loc(cl.ast), "staging is disabled on the normal exit",
@@ -445,6 +464,24 @@ def rule_stage(ctx) -> None:
         lv = f.ast.target.id if isinstance(f.ast.target, ast.Name) else "?"
         ok = bool(w) and all(src(a).startswith(lv + ".") for a in w[0].args)
         ctx.check(ok, "C10.STAGE", f"{fn.qual}/final-drain-writes", fn.loc(f.ast), "each drained record is written with its own (file_path, payload)", "the final drain does not write each record")
+    for name, hf in sorted(flushers.items()):
+        ctx.holds("C10.STAGE", f"{hf.qual}/final-drain-writes", hf.loc(), "the flush helper writes each drained record with its own (file_path, payload) and never leaves its loop early")
+    # drain_sorted() hands the records over ONCE: whatever is not written in this pass is gone.  A stream whose append raises (an
+    # unwritable path) must not take the records that sort after it - of other, writable streams - with it: every record is tried
+    # (the write sits in a try whose handler stays in the loop), the failure is raised after the pass.
+    drain_loops = [(hf, lp) for hf in flushers.values() for lp in walk_no_defs(hf.node) if isinstance(lp, ast.For) and isinstance(lp.iter, ast.Call) and call_tail(lp.iter) == "drain_sorted"] + \
+                  [(fn, n.ast) for n in finals] + [(fn, lp) for lp in walk_no_defs(fn.node) if isinstance(lp, ast.For) and isinstance(lp.iter, ast.Call) and call_tail(lp.iter) == "drain_sorted"
+                                                   and not any(lp is n.ast for n in finals)]
+    ctx.floor("C10.STAGE", "loops that write out drained records", len(drain_loops), 1)
+    for hf, lp in drain_loops:
+        ws = [y for st in lp.body for y in ast.walk(st) if isinstance(y, ast.Call) and call_tail(y) == "_append_unbuffered"]
+        tried = bool(ws) and all(any(isinstance(st, ast.Try) and part == "body" and any(isinstance(z, ast.Call) and z is w for z in ast.walk(st))
+                                     and all(not any(isinstance(z, (ast.Raise, ast.Break, ast.Return)) for b in h.body for z in ast.walk(b)) for h in st.handlers)
+                                     and any(h.type is None or "Exception" in src(h.type) or "OSError" in src(h.type) for h in st.handlers)
+                                     for st, part in enclosing(ctx.prog, hf, w) if any(st is y for y in ast.walk(lp))) for w in ws)
+        ctx.check(tried, "C10.STAGE", ctx.okey(f"{hf.qual}/every-drained-record-is-tried"), hf.loc(lp), "a record whose append fails does not end the pass over the drained records",
+                  "the pass over drain_sorted() stops at the first append that raises: the stager is already empty, so every record that sorts after it - also of streams that can be written - is lost; "
+                  "which records those are depends on the staging limit (what had been flushed before)")
     en = [n for n in cfg.nodes if any(isinstance(c.func, ast.Call) and c.func.args and const_str(c.func.args[0]) == "enable_staging" for c in node_calls(n))]
     exc_p = cfg.path(en, lambda x: x is cfg.raise_, avoid=lambda x: x in dis, include_start=False) if en else None
     if exc_p is not None:
